@@ -290,6 +290,7 @@ func walCheck(c *Ctx, wc walCase, tape *simrt.Tape, count bool) []walViolation {
 		tags := walImageTags(m)
 		if count {
 			c.Res.Evaluations++
+			Beat()
 			c.Distinct(hash64("wal", m.Hash()))
 			for _, t := range strings.Split(tags, ",") {
 				if t != "" {
